@@ -21,7 +21,7 @@ func init() {
 	mc.Register(&mc.Property{
 		ID:    "C13",
 		Level: "exploration",
-		Rule: "E1 bounded-exhaustive enumeration: every bitmap of 1..N words over {0, 1, 1<<63, 1|1<<63, 1<<31, ^0, 3<<62} × every range 0 ≤ i ≤ end ≤ 64·len with i inside the bitmap: NextOne; and PrevOne for end ≥ 1. Oracle: linear scan over [i,end). " +
+		Rule: "E1 bounded-exhaustive enumeration: every bitmap of 1..N words over {0, 1, 1<<63, 1|1<<63, 1<<31, ^0, 3<<62} × every range 0 ≤ i ≤ end ≤ 64·len with i inside the bitmap: NextOne; and PrevOne for end ≥ 1. plus long sparse bitmaps (24/33 words, thorough 40/70; all zero except ≤2 islands at every pair of positions) × every range whose ends lie within 1 of a word boundary or half-word; oracle: linear scan over [i,end). " +
 			"A case is one call; non-trivial when the bitmap has a 1 and the range is non-empty.",
 		Assumptions: []string{"other word patterns are not enumerated (the code's case splits are: first/last word masked, all-zero words skipped, result clipped to the range)"},
 		Run:         c13Run,
@@ -72,6 +72,9 @@ func c13Run(c *mc.Ctx) {
 				shards = append(shards, shard{l, []int{x, y}})
 			}
 		}
+	}
+	for _, L := range []int{c.Pick(24, 40), c.Pick(33, 70)} {
+		c13Long(c, L)
 	}
 	c.Par(len(shards), func(si int) {
 		if c.TooMany() {
@@ -143,6 +146,130 @@ func c13Run(c *mc.Ctx) {
 		c.Count(evals, nontriv)
 		c.Add("bitmaps", seq)
 	})
+}
+
+// c13Long: long bitmaps (L words, all zero except ≤2 islands at every pair of
+// positions) × every range whose ends lie on, just before or just after a word
+// boundary or an island bit: long runs of all-zero words to skip in both directions.
+func c13Long(c *mc.Ctx, L int) {
+	isl := []uint64{1, 1 << 63, 1<<31 | 1<<32}
+	type bm struct{ w []uint64 }
+	var bms [][]uint64
+	bms = append(bms, make([]uint64, L))
+	for p := 0; p < L; p++ {
+		for _, a := range isl {
+			w := make([]uint64, L)
+			w[p] = a
+			bms = append(bms, w)
+			for q := p + 1; q < L; q++ {
+				for _, b := range isl {
+					w2 := append([]uint64(nil), w...)
+					w2[q] = b
+					bms = append(bms, w2)
+				}
+			}
+		}
+	}
+	nb := int32(64 * L)
+	var pts []int32
+	seen := map[int32]bool{}
+	add := func(x int32) {
+		if x >= 0 && x <= nb && !seen[x] {
+			seen[x] = true
+			pts = append(pts, x)
+		}
+	}
+	for k := int32(0); k <= int32(L); k++ {
+		for _, d := range []int32{-1, 0, 1, 31, 32, 33} {
+			add(64*k + d)
+		}
+	}
+	sortI32(pts)
+	// closed form: pairs i ≤ end with i < nb; PrevOne additionally needs end ≥ 1
+	var pairs, prevPairs int64
+	for _, i := range pts {
+		for _, e := range pts {
+			if i <= e && i < nb {
+				pairs++
+				if e >= 1 {
+					prevPairs++
+				}
+			}
+		}
+	}
+	c.Expect(int64(len(bms)) * (pairs + prevPairs))
+	c.Par(len(bms), func(bi int) {
+		if c.TooMany() {
+			return
+		}
+		w := bms[bi]
+		any := false
+		for _, x := range w {
+			any = any || x != 0
+		}
+		first := make([]int32, nb+1)
+		last := make([]int32, nb+1)
+		first[nb] = -1
+		for i := nb - 1; i >= 0; i-- {
+			if w[i>>6]>>uint(i&63)&1 == 1 {
+				first[i] = i
+			} else {
+				first[i] = first[i+1]
+			}
+		}
+		last[0] = -1
+		for e := int32(1); e <= nb; e++ {
+			if w[(e-1)>>6]>>uint((e-1)&63)&1 == 1 {
+				last[e] = e - 1
+			} else {
+				last[e] = last[e-1]
+			}
+		}
+		var evals, nontriv int64
+		order := int64(1)<<56 | int64(L)<<40 | int64(bi)<<8
+		for _, i := range pts {
+			if i >= nb {
+				continue
+			}
+			for _, end := range pts {
+				if end < i {
+					continue
+				}
+				want := first[i]
+				if want >= end {
+					want = -1
+				}
+				if got, p := nextOne(w, i, end); p || got != want {
+					c.Fail(order, "NextOne", "NextOne", c13Case{append(gen.Words(nil), w...), i, end}, "", "")
+				}
+				evals++
+				if end >= 1 {
+					want = last[end]
+					if want < i {
+						want = -1
+					}
+					if got, p := prevOne(w, i, end); p || got != want {
+						c.Fail(order, "PrevOne", "PrevOne", c13Case{append(gen.Words(nil), w...), i, end}, "", "")
+					}
+					evals++
+				}
+				if any && end > i {
+					nontriv += 2
+				}
+			}
+		}
+		c.Count(evals, nontriv)
+		c.Add("bitmaps", 1)
+		c.Add("long_sparse_bitmaps", 1)
+	})
+}
+
+func sortI32(a []int32) {
+	for i := 1; i < len(a); i++ {
+		for j := i; j > 0 && a[j] < a[j-1]; j-- {
+			a[j], a[j-1] = a[j-1], a[j]
+		}
+	}
 }
 
 func c13Judge(kind string, cs c13Case) (got, want string) {
